@@ -110,10 +110,33 @@ got.send
 for piece in stream(3):
     piece.real
 ''',
+    # a function whose only caller lives in a sibling module on disk (SIBLINGS): the type of its
+    # parameter comes from jedi's dynamic parameter search across the project's other files
+    'dyn': '''\
+import math
+
+
+def describe(value, unit='m'):
+    label = unit
+    return value.real
+
+
+def scale(factor):
+    return math.floor(factor)
+
+
+ratio = scale(2.5)
+''',
+}
+
+# per base: other files of the project directory (path mode), written next to the buffer file
+SIBLINGS = {
+    'dyn': {'client.py': 'from buf import describe\n\ndescribe(3.5)\n'},
 }
 
 # per base: the call typed character by character at the end of the buffer
 TYPED = {
+    'dyn': 'tail = scale(ratio)',
     'gen': 'tail = produce(4)',
     'funcs': 'tail = alpha(value, 5)',
     'klass': 'tail = sq.describe(msg)',
@@ -400,6 +423,17 @@ def ev_yield_to_return(lines, base):
     return None if k is None else lines[:k] + ['    return 1.0\n'] + lines[k + 1:]
 
 
+LOOP = ['nums = [1, 2]\n', 'for num in nums:\n', '    num\n']
+
+
+def ev_add_list_loop(lines, base):
+    """Append a for loop over a list literal (nothing in it adds to the list)."""
+    out = list(lines)
+    if out and not out[-1].endswith('\n'):
+        out[-1] += '\n'
+    return out + LOOP
+
+
 def ev_paste(lines, base):
     i = _middle(lines)
     return lines[:i] + PASTE + lines[i:]
@@ -435,13 +469,18 @@ EVENTS = {
     'add_yield_tail': ev_add_yield_tail, 'del_yield_tail': ev_del_yield_tail,
     'change_yield_type': ev_change_yield_type, 'return_to_yield': ev_return_to_yield,
     'yield_to_return': ev_yield_to_return,
+    'add_list_loop': ev_add_list_loop,
 }
 YIELD_EVENTS = ('add_yield_tail', 'del_yield_tail', 'change_yield_type', 'return_to_yield',
                 'yield_to_return')
 CLOCK = {'wait4': 4.0, 'wait601': 601.0}
 SPECIAL = ('undo',) + tuple(CLOCK)
-ALL_EVENTS = tuple(e for e in EVENTS if not e.endswith(('_tail', '_type', 'to_yield',
-                                                         'to_return'))) + SPECIAL
+# disk events (path mode only): `save` writes the buffer to its file (file clock +1 s) and
+# re-analyses it; `reload` analyses the path WITHOUT code (jedi reads the file itself): the
+# buffer text becomes what is on disk
+DISK_EVENTS = ('save', 'reload')
+ALL_EVENTS = tuple(e for e in EVENTS if not e.endswith(('_tail', '_type', 'to_yield', 'to_return',
+                                                         'list_loop'))) + SPECIAL
 
 
 def typing_steps(text, base):
@@ -455,12 +494,20 @@ def typing_steps(text, base):
 
 
 class Buffer:
-    """Text + undo stack + virtual time offset requested for the next Script."""
+    """Text + undo stack + what is on disk under the buffer's path + how the newest Script got
+    its text (`nocode`: jedi read the file itself)."""
 
     def __init__(self, base):
         self.base = base
         self.text = BASES[base]
+        self.disk = BASES[base]
+        self.nocode = False
         self.undo = []
+
+    def clone(self):
+        b = Buffer(self.base)
+        b.text, b.disk, b.nocode, b.undo = self.text, self.disk, self.nocode, list(self.undo)
+        return b
 
     def enabled(self, ev):
         return self.peek(ev) is not None
@@ -473,6 +520,10 @@ class Buffer:
             if not self.undo:
                 return None
             return self.undo[-1], 0.0
+        if ev == 'save':
+            return None if self.text == self.disk else (self.text, 0.0)
+        if ev == 'reload':
+            return self.disk, 0.0
         new = EVENTS[ev](_lines(self.text), self.base)
         if new is None:
             return None
@@ -488,34 +539,53 @@ class Buffer:
         new, dt = r
         if ev == 'undo':
             self.undo.pop()
-        elif ev not in CLOCK:
+        elif ev == 'save':
+            self.disk = self.text
+        elif ev not in CLOCK and new != self.text:
             self.undo.append(self.text)
+        if ev not in CLOCK:
+            self.nocode = ev == 'reload'
         self.text = new
         return new, dt
+
+    def state(self):
+        return (self.text, self.disk, self.nocode)
+
+
+def history_states(base, events):
+    """(text, disk text, nocode) after the opening (index 0) and after every event."""
+    b = Buffer(base)
+    out = [b.state()]
+    for ev in events:
+        if b.apply(ev) is None:
+            raise ValueError('event %s disabled in %s:%s' % (ev, base, '/'.join(events)))
+        out.append(b.state())
+    return out
+
+
+def path_only(events):
+    return any(e in DISK_EVENTS for e in events)
 
 
 def histories(base, alphabet, depth, max_clock=1):
     """Every enabled history of exactly `depth` events, in lexicographic (alphabet) order.
     Yields (tuple of event names, list of texts after each event)."""
-    def rec(prefix, texts, buf_undo, text, nclock):
+    def rec(prefix, texts, buf, nclock):
         if len(prefix) == depth:
             yield tuple(prefix), list(texts)
             return
         for ev in alphabet:
             if ev in CLOCK and nclock >= max_clock:
                 continue
-            b = Buffer(base)
-            b.text = text
-            b.undo = list(buf_undo)
-            r = b.apply(ev)
-            if r is None:
+            b = buf.clone()
+            if b.apply(ev) is None:
                 continue
             prefix.append(ev)
             texts.append(b.text)
-            yield from rec(prefix, texts, b.undo, b.text, nclock + (ev in CLOCK))
+            yield from rec(prefix, texts, b, nclock + (ev in CLOCK))
             prefix.pop()
             texts.pop()
-    yield from rec([], [], [], BASES[base], 0)
+    yield from rec([], [], Buffer(base), 0)
 
 
 QUICK_ALPHABET = ('ins_def_top', 'ins_assign_mid', 'del_body', 'del_top', 'rename_def',
